@@ -778,6 +778,8 @@ func checkC11(r *Report) {
 	}
 	nFZ := fourthZeroRule(r, p, "C11.d/NUGET-FOURTH-ZERO")
 	r.floor("C11.d/NUGET-FOURTH-ZERO", "tails of versions filled with zeros", nFZ, 1)
+	nLR := letterRangeRule(r, p, "C11.f/LETTER-RANGE")
+	r.floor("C11.f/LETTER-RANGE", "comparisons of a byte with an end of A-Z, a-z or 0-9 in package semver", nLR, 10)
 	nIR := infinityReadableRule(r, p, "C11.e/INFINITY-READABLE")
 	r.floor("C11.e/INFINITY-READABLE", "bound parses in parseSpan and unit spans built by newSpan", nIR, 3)
 }
